@@ -717,6 +717,9 @@ func init() {
 			fr.i.wgs[p] = w
 		}
 		w.n += int(asInt64(a[1]))
+		if asInt64(a[1]) < 0 {
+			fr.i.hbRelease(fr.g, p)
+		}
 		if w.n < 0 {
 			panic(targetPanic{iface{t: types.Typ[types.String], v: "sync: negative WaitGroup counter"}})
 		}
@@ -728,6 +731,7 @@ func init() {
 	I["(*sync.WaitGroup).Wait"] = func(fr *frame, a []value) value {
 		p := recvPtr(a[0])
 		fr.i.block(fr.g, "WaitGroup.Wait", func() bool { w := fr.i.wgs[p]; return w == nil || w.n == 0 })
+		fr.i.hbAcquire(fr.g, p)
 		return nil
 	}
 }
